@@ -75,6 +75,28 @@ theorem eval_rounding_f90 (fl : F → F) (u : F) (hu : 0 ≤ u) (hfl : ∀ x, |f
     (fun n _ hn _ => vsBinomExact_below fl hrep _ Tables.C01.binomials_exact_f90 n (by omega))
     row h w
 
+/-- **the shipped Fortran loop (`binom_val` declared `integer(c_int)`)**: for every degree `d ≤ 29`
+    (where the 32-bit binomial is the true one, `Tri.binomAfter_exact_le_29`) it computes in the
+    rounded arithmetic exactly the value of the real-binomial loop, for every input – so every
+    theorem of this file about `F90.evalBarycentricRowReal` is a theorem about
+    `F90.evalBarycentricRow` for these degrees (Cartesian entry points included) -/
+theorem f90_int32_eq_real (fl : F → F) (thr d : ℕ) (hd : d ≤ 29) (hbin : TriBinomExact fl d)
+    (row : List (Fl F fl)) (w : Bary (Fl F fl)) :
+    F90.evalBarycentricRow thr d row w = F90.evalBarycentricRowReal thr d row w :=
+  F90_evalBarycentricRow_eq_real_fl thr d hbin (fun t ht => binomAfter_exact_le_29 d hd t ht) row w
+
+/-- the bound for the shipped Fortran loop and the extracted switch, `d ≤ 29` -/
+theorem eval_rounding_f90_int32 (fl : F → F) (u : F) (hu : 0 ≤ u) (hfl : ∀ x, |fl x - x| ≤ u * |x|)
+    (hrep : Rep53Exact fl) (d : ℕ) (hd : d ≤ 29) (hd' : d < f90_curve_vs_threshold)
+    (row : List F) (h : row.length = numNodes d) (w : Bary F) :
+    |(F90.evalBarycentricRow f90_curve_vs_threshold d (row.map Fl.mk) (mkBary fl w)).val
+        - triBern d w.l1 w.l2 w.l3 (netOf d row)|
+      ≤ ((1+u)^(2*d+4) - 1)
+          * ∑ k ∈ range (d+1), ∑ j ∈ range (d-k+1),
+              |((d.choose k * (d-k).choose j : ℕ) : F) * w.l1^(d-k-j) * w.l2^j * w.l3^k * netOf d row j k| := by
+  rw [f90_int32_eq_real fl _ d hd (triBinomExact_below fl hrep _ Tables.C01.binomials_exact_f90 d hd')]
+  exact eval_rounding_f90 fl u hu hfl hrep d hd' row h w
+
 /-! ### Cartesian entry points -/
 
 /-- Python, against the Bernstein sum at the weights actually used `(fl (fl (1-s) - t), s, t)` -/
@@ -135,6 +157,34 @@ theorem cartesian_rounding_f90 (fl : F → F) (u : F) (hu : 0 ≤ u)
   have := cartesian_perturb S d _ row s t
     (f90_evalBarycentricRowReal_near S thr d hbin hrows row h ⟨fl (fl (1 - s) - t), s, t⟩)
   exact (this.cast (by ring : 2*d+4 + 2*d = 4*d+4)).1
+
+/-- the Cartesian bounds for the extracted switches (standard model plus "integers with odd part
+    `< 2^53` are exact"): no hypothesis on binomials is left below the switch.  Python variant and
+    Fortran variant (real binomial; the shipped `integer(c_int)` loop for `d ≤ 29` by
+    `f90_int32_eq_real`) -/
+theorem cartesian_rounding_extracted (fl : F → F) (u : F) (hu : 0 ≤ u)
+    (hfl : ∀ x, |fl x - x| ≤ u * |x|) (hrep : Rep53Exact fl) (d : ℕ)
+    (row : List F) (h : row.length = numNodes d) (s t : F) :
+    (d < py_curve_vs_threshold →
+      |(Py.evalBarycentricRow py_curve_vs_threshold d (row.map Fl.mk) (cartesian (⟨s⟩ : Fl F fl) ⟨t⟩)).val
+          - triBern d (1 - s - t) s t (netOf d row)|
+        ≤ ((1+u)^(4*d+4) - 1)
+            * ∑ k ∈ range (d+1), ∑ j ∈ range (d-k+1),
+                |((d.choose k * (d-k).choose j : ℕ) : F) * (|1 - s| + |t|)^(d-k-j) * s^j * t^k
+                  * netOf d row j k|) ∧
+    (d < f90_curve_vs_threshold →
+      |(F90.evalBarycentricRowReal f90_curve_vs_threshold d (row.map Fl.mk)
+            (cartesian (⟨s⟩ : Fl F fl) ⟨t⟩)).val - triBern d (1 - s - t) s t (netOf d row)|
+        ≤ ((1+u)^(4*d+4) - 1)
+            * ∑ k ∈ range (d+1), ∑ j ∈ range (d-k+1),
+                |((d.choose k * (d-k).choose j : ℕ) : F) * (|1 - s| + |t|)^(d-k-j) * s^j * t^k
+                  * netOf d row j k|) :=
+  ⟨fun hd => cartesian_rounding_py fl u hu hfl _ d
+      (triBinomExact_below fl hrep _ Tables.C01.binomials_exact_py d hd)
+      (fun n _ hn _ => vsBinomExact_below fl hrep _ Tables.C01.binomials_exact_py n (by omega)) row h s t,
+   fun hd => cartesian_rounding_f90 fl u hu hfl _ d
+      (triBinomExact_below fl hrep _ Tables.C01.binomials_exact_f90 d hd)
+      (fun n _ hn _ => vsBinomExact_below fl hrep _ Tables.C01.binomials_exact_f90 n (by omega)) row h s t⟩
 
 /-- the multi-point entry points are, entry by entry, the expressions bounded above -/
 theorem evalCartesianMulti_fl (fl : F → F) (thr d : ℕ) (nodes : List (List F)) (params : List (F × F)) :
